@@ -144,7 +144,23 @@ func (t *tcpHandler) Handle() error {
 		}(conn)
 	}
 	if t.pool != nil {
-		t.pool.Release()
+		// Requests that were read before (or while) the server shuts down are queued in the pool:
+		// keep the workers until every connection has drained, otherwise the queued handlers
+		// never run, their connections never close and Shutdown runs into its context.
+		go func() {
+			for {
+				drained := true
+				t.conns.Range(func(_, _ interface{}) bool {
+					drained = false
+					return false
+				})
+				if drained {
+					break
+				}
+				time.Sleep(100 * time.Millisecond)
+			}
+			t.pool.Release()
+		}()
 	}
 	return nil
 }
